@@ -44,38 +44,39 @@ theorem maxVals_eq {vs : List CVal} {l : List Int} {m : Int}
 
 mutual
 theorem no_overflow_aux (ρ : Env) : (e : Expr) → ∀ (t : ATree) (v : CVal),
-    annot e = some t → gate t = some [] → EnvOk ρ e → eval ρ e = some v → Good (cppEval ρ e) v
-  | .const c, t, v, hann, hg, henv, hev => by
+    annot e = some t → gate t = some [] → EnvOk ρ e → eval ρ e = some v →
+    vrefsGated e = true → Good (cppEval ρ e) v
+  | .const c, t, v, hann, hg, henv, hev, hv => by
     have habs := annot_abs hann
     have hgam := (sound_aux ρ _ henv).1 _ _ habs hev
     have hown := gate_own hg
     simp only [abs, Option.some.injEq] at habs
     rw [← habs] at hgam hown
     exact Or.inl (cppLiteral_ok hgam (by simp [isConstType, constRange]) hown)
-  | .bconst b, t, v, hann, hg, henv, hev => by
+  | .bconst b, t, v, hann, hg, henv, hev, hv => by
     simp only [eval, Option.some.injEq] at hev; subst hev; exact Or.inl rfl
-  | .econst b, t, v, hann, hg, henv, hev => by
+  | .econst b, t, v, hann, hg, henv, hev, hv => by
     simp only [eval, Option.some.injEq] at hev; subst hev; exact Or.inl rfl
-  | .ileaf id k size, t, v, hann, hg, henv, hev => by
+  | .ileaf id k size, t, v, hann, hg, henv, hev, hv => by
     have habs := annot_abs hann
     have hgam := (sound_aux ρ _ henv).1 _ _ habs hev
     simp only [cppEval]
     refine withType_ok habs (gate_own hg) hgam (fun _ => ?_)
     simp only [eval, Option.some.injEq] at hev; subst hev; exact Or.inl rfl
-  | .ssize id, t, v, hann, hg, henv, hev => by
+  | .ssize id, t, v, hann, hg, henv, hev, hv => by
     simp only [eval, Option.some.injEq] at hev; subst hev; exact Or.inl rfl
-  | .given id a, t, v, hann, hg, henv, hev => by
+  | .given id a, t, v, hann, hg, henv, hev, hv => by
     have habs := annot_abs hann
     have hgam := (sound_aux ρ _ henv).1 _ _ habs hev
     simp only [cppEval]
     simp only [abs] at habs
     refine withType_ok habs (gate_own hg) hgam (fun _ => ?_)
     simp only [eval, Option.some.injEq] at hev; subst hev; exact Or.inl rfl
-  | .bleaf id, t, v, hann, hg, henv, hev => by
+  | .bleaf id, t, v, hann, hg, henv, hev, hv => by
     simp only [eval, Option.some.injEq] at hev; subst hev; exact Or.inl rfl
-  | .eleaf id, t, v, hann, hg, henv, hev => by
+  | .eleaf id, t, v, hann, hg, henv, hev, hv => by
     simp only [eval, Option.some.injEq] at hev; subst hev; exact Or.inl rfl
-  | .upper e, t, v, hann, hg, henv, hev => by
+  | .upper e, t, v, hann, hg, henv, hev, hv => by
     have habs := annot_abs hann
     have hgam := (sound_aux ρ _ henv).1 _ _ habs hev
     simp only [cppEval]
@@ -87,7 +88,7 @@ theorem no_overflow_aux (ρ : Env) : (e : Expr) → ∀ (t : ATree) (v : CVal),
     cases a <;> simp only [absBound, Option.some.injEq] at habs <;> try cases habs
     rw [← habs] at hnc
     simp [isConstType, boundFn] at hnc
-  | .lower e, t, v, hann, hg, henv, hev => by
+  | .lower e, t, v, hann, hg, henv, hev, hv => by
     have habs := annot_abs hann
     have hgam := (sound_aux ρ _ henv).1 _ _ habs hev
     simp only [cppEval]
@@ -99,7 +100,7 @@ theorem no_overflow_aux (ρ : Env) : (e : Expr) → ∀ (t : ATree) (v : CVal),
     cases a <;> simp only [absBound, Option.some.injEq] at habs <;> try cases habs
     rw [← habs] at hnc
     simp [isConstType, boundFn] at hnc
-  | .cref e, t, v, hann, hg, henv, hev => by
+  | .cref e, t, v, hann, hg, henv, hev, hv => by
     have habs := annot_abs hann
     have hgam := (sound_aux ρ _ henv).1 _ _ habs hev
     simp only [cppEval]
@@ -112,7 +113,8 @@ theorem no_overflow_aux (ρ : Env) : (e : Expr) → ∀ (t : ATree) (v : CVal),
     rename_i ty hty hc
     rw [hty] at habs; cases habs
     simp [ATree.ty, hc] at hnc
-  | .bin op l r, t, v, hann, hg, henv, hev => by
+  | .bin op l r, t, v, hann, hg, henv, hev, hv => by
+    simp only [vrefsGated, Bool.and_eq_true] at hv
     have habs := annot_abs hann
     have hgam := (sound_aux ρ _ henv).1 _ _ habs hev
     have hown := gate_own hg
@@ -126,8 +128,8 @@ theorem no_overflow_aux (ρ : Env) : (e : Expr) → ∀ (t : ATree) (v : CVal),
     simp only [eval] at hev
     split at hev <;> try cases hev
     rename_i vl vr hvl hvr
-    have ihl := no_overflow_aux ρ l a vl ha (hgates a (by simp)) henv.1 hvl
-    have ihr := no_overflow_aux ρ r b vr hb (hgates b (by simp)) henv.2 hvr
+    have ihl := no_overflow_aux ρ l a vl ha (hgates a (by simp)) henv.1 hvl hv.1
+    have ihr := no_overflow_aux ρ r b vr hb (hgates b (by simp)) henv.2 hvr hv.2
     have gl := (sound_aux ρ l henv.1).1 _ _ (annot_abs ha) hvl
     have gr := (sound_aux ρ r henv.2).1 _ _ (annot_abs hb) hvr
     rw [annot_abs ha, annot_abs hb]
@@ -145,7 +147,8 @@ theorem no_overflow_aux (ρ : Env) : (e : Expr) → ∀ (t : ATree) (v : CVal),
     · exact Or.inr rfl
     · exact Or.inr rfl
     · exact Or.inr rfl
-  | .choice c tt ff, t, v, hann, hg, henv, hev => by
+  | .choice c tt ff, t, v, hann, hg, henv, hev, hv => by
+    simp only [vrefsGated, Bool.and_eq_true] at hv
     have habs := annot_abs hann
     have hgam := (sound_aux ρ _ henv).1 _ _ habs hev
     have hown := gate_own hg
@@ -159,16 +162,17 @@ theorem no_overflow_aux (ρ : Env) : (e : Expr) → ∀ (t : ATree) (v : CVal),
     simp only [eval] at hev
     split at hev <;> try cases hev
     rename_i bb x y hc hx hy
-    have ihc := no_overflow_aux ρ c a _ ha (hgates a (by simp)) henv.1 hc
-    have iht := no_overflow_aux ρ tt b _ hb (hgates b (by simp)) henv.2.1 hx
-    have ihf := no_overflow_aux ρ ff d _ hd (hgates d (by simp)) henv.2.2 hy
+    have ihc := no_overflow_aux ρ c a _ ha (hgates a (by simp)) henv.1 hc hv.1.1
+    have iht := no_overflow_aux ρ tt b _ hb (hgates b (by simp)) henv.2.1 hx hv.1.2
+    have ihf := no_overflow_aux ρ ff d _ hd (hgates d (by simp)) henv.2.2 hy hv.2
     rw [annot_abs ha, annot_abs hb, annot_abs hd]
     rcases ihc with hc' | hc' <;> rcases iht with ht' | ht' <;> rcases ihf with hf' | hf' <;>
       rw [hc', ht', hf'] <;> simp only []
     · simp only [argTys] at h1
       exact cppChoice_ok h1 hown hgam
     all_goals exact Or.inr rfl
-  | .max args, t, v, hann, hg, henv, hev => by
+  | .max args, t, v, hann, hg, henv, hev, hv => by
+    simp only [vrefsGated] at hv
     have habs := annot_abs hann
     have hgam := (sound_aux ρ _ henv).1 _ _ habs hev
     have hown := gate_own hg
@@ -185,7 +189,7 @@ theorem no_overflow_aux (ρ : Env) : (e : Expr) → ∀ (t : ATree) (v : CVal),
     rename_i vs hvs _ l hl
     simp only [Option.map_eq_some_iff] at hev
     obtain ⟨m, hm, rfl⟩ := hev
-    have ih := no_overflow_list ρ args ts vs hts hgates henv hvs
+    have ih := no_overflow_list ρ args ts vs hts hgates henv hvs hv
     have gs := (soundList_aux ρ args henv).1 _ _ (annotList_abs hts) hvs
     rw [annotList_abs hts]
     rcases ih with h' | ⟨h', h''⟩
@@ -199,23 +203,34 @@ theorem no_overflow_aux (ρ : Env) : (e : Expr) → ∀ (t : ATree) (v : CVal),
         exact gate_own (hgates t'' ht'')
     · simp only [h']
       exact Or.inr h''
+  | .vref e, t, v, hann, hg, henv, hev, hv => by
+    simp only [vrefsGated, Bool.and_eq_true] at hv
+    obtain ⟨hv1, hv2⟩ := hv
+    split at hv2
+    · rename_i t' ht'
+      simp only [decide_eq_true_eq] at hv2
+      simp only [eval] at hev
+      simp only [cppEval]
+      exact no_overflow_aux ρ e t' v ht' hv2 henv hev hv1
+    · cases hv2
 theorem no_overflow_list (ρ : Env) : (es : List Expr) → ∀ (ts : List ATree) (vs : List CVal),
     annotList es = some ts → (∀ t ∈ ts, gate t = some []) → EnvOkList ρ es →
-    evalList ρ es = some vs →
+    evalList ρ es = some vs → vrefsGatedList es = true →
     okVals (cppEvalList ρ es) = some vs ∨
       (okVals (cppEvalList ρ es) = none ∧ firstBad (cppEvalList ρ es) = .staticAssert)
-  | [], ts, vs, hann, hg, henv, hev => by
+  | [], ts, vs, hann, hg, henv, hev, hv => by
     simp only [evalList, Option.some.injEq] at hev; subst hev
     left; rfl
-  | e :: es, ts, vs, hann, hg, henv, hev => by
+  | e :: es, ts, vs, hann, hg, henv, hev, hv => by
+    simp only [vrefsGatedList, Bool.and_eq_true] at hv
     simp only [annotList] at hann
     split at hann <;> try cases hann
     rename_i a l ha hl
     simp only [evalList] at hev
     split at hev <;> try cases hev
-    rename_i v vs' hv hvs
-    have ih1 := no_overflow_aux ρ e a v ha (hg a (by simp)) henv.1 hv
-    have ih2 := no_overflow_list ρ es l vs' hl (fun t ht => hg t (List.mem_cons_of_mem _ ht)) henv.2 hvs
+    rename_i v vs' hv' hvs
+    have ih1 := no_overflow_aux ρ e a v ha (hg a (by simp)) henv.1 hv' hv.1
+    have ih2 := no_overflow_list ρ es l vs' hl (fun t ht => hg t (List.mem_cons_of_mem _ ht)) henv.2 hvs hv.2
     simp only [cppEvalList]
     rcases ih1 with h1 | h1
     · rw [h1]
